@@ -16,7 +16,10 @@ RULE = ("valid streams of every method and the small .drc files of testdata (bit
         "count (sequential streams), geometry; distinct op lines"
         '; plus structure-aware corruption of every located count / descriptor / section field of small base '
         'streams, the tamper-hook campaign (the encoder re-run with exactly one semantic value replaced) and the '
-        'regression streams of repaired findings (the kd-tree stack finding is listed as known)')
+        'regression streams of repaired findings (c9df685, 63027a3; the kd-tree stack finding is listed as known); '
+        'the structure-aware bases include hand-built legacy 2.0-2.2 integer / float kd-tree streams (harness op '
+        'legacykd: header, attribute and inner point counts each set to boundary values), point clouds spliced into '
+        'one stream with 2..3 attributes decoders and valence-traversal streams with located context counts')
 THEOREM_BACKED = ('DracoProps.C18: alloc_bounded: every event of the allocation log of decodeGeometrySeq on bs is <= '
                   '4259840 + 2048 * (bs.length + declared) for accepted and rejected streams (sequential decoders of every '
                   'bitstream version); alloc_bounded_seq_stream; alloc_bounded_with (dispatcher with arbitrary body '
